@@ -2,33 +2,48 @@ import Rbacx.Model.PyLib
 import Rbacx.Model.PyAwait
 /-
   Rbacx.Model.PySinks — the Python constructs `harness/pytolean_sinks.py` adds to the translator family: a TAIL of an `async def`
-  method (from a designated statement to the end of the body) whose point is which SINK CALLS it makes, in which order, with which
-  arguments, and what it returns — whatever the sinks do (`Guard._evaluate_core_async`, core/engine.py: the statements from
-  `if self.metrics is not None:` to `return d`).  The tail is a function to its `Trace`: the list of sink calls that were made (in
+  method (from a designated statement to the end of the body) whose point is which SINKS' WORK it makes happen, in which order, with
+  which arguments, and what it returns — whatever the sinks do (`Guard._evaluate_core_async`, core/engine.py: the statements from
+  `if self.metrics is not None:` to `return d`).  The tail is a function to its `Trace`: the list of sink calls whose WORK RAN (in
   program order, with their arguments) and how the tail ended.
 
   * a SINK is what `getattr(<sink object>, "<name>", None)` finds together with what happens when it is called: `absent` (the
-    attribute is missing or `None`), or a function — a plain `def` or an `async def` (what `inspect.iscoroutinefunction` tells
-    apart) — that returns or raises (an `Exception`; for an `async def` the body runs, and raises, when the call is awaited).  The
-    sinks are PARAMETERS of the translated tail: the theorems quantify over all of them.
-  * `x(args…)` / `await x(args…)` on such a value as a statement: `call` — the sink's body runs exactly when the way it is called fits
-    what it is (a plain function called, a coroutine function called and awaited): one `Call` in the trace, then the tail goes on or
-    the exception is raised there.  The two misfits are kept as CPython has them: a coroutine function called WITHOUT `await` creates a
-    coroutine object that never runs (no call, nothing raised), a plain function AWAITED runs and then `await <its result>` raises
-    TypeError; calling `None` raises TypeError.
-  * `try: <body> except Exception: <handler>`: `tryExcept` — an exception raised in the body ends the body there, the calls made so
-    far stay made, the handler runs, the statements after the `try` run.
+    attribute is missing or `None`), or a function in one of the three SPELLINGS the ports allow (`-> None | Awaitable[None]`):
+    `plain` — a `def` that does its work when called; `coroFn` — an `async def` (what `inspect.iscoroutinefunction` recognises): the
+    call makes a coroutine object, the work runs when that is awaited; `awaitable` — a plain `def` that RETURNS an awaitable (a
+    coroutine object, a Future-like object): the work runs when the returned value is awaited.  `raises`: the work raises an
+    `Exception` (where it runs: at call time for `plain`, at await time for the other two).  The sinks are PARAMETERS of the
+    translated tail: the theorems quantify over all of them.
+  * `await maybe_await(x(args…))` (finding F21's repair): `callMaybe` — the call is made and whatever awaitable comes back is awaited
+    (`maybe_await`: await an awaitable, hand anything else on): the work runs exactly once in EVERY spelling.
+  * `x(args…)` / `await x(args…)` as a statement (the text before the repair): `call` — the work runs exactly when the way of calling
+    fits the spelling: `plain` called, `coroFn` / `awaitable` called and awaited.  The misfits are kept as CPython has them: a
+    `coroFn` or `awaitable` sink called WITHOUT `await` makes an awaitable that is dropped — the work never runs, nothing is raised
+    (this IS finding F21 for the `awaitable` spelling, which `iscoroutinefunction` does not recognise); a `plain` function AWAITED runs
+    and then `await <its result>` raises TypeError; calling `None` raises TypeError.
+  * `try: <body> except Exception: <handler>`: `tryExcept` — an exception raised in the body ends the body there, the work done so
+    far stays done, the handler runs, the statements after the `try` run.
   * statement sequencing `seq`, `return e` = `ret`, running off the end of a block = `next`.
 -/
 namespace Rbacx.PyS
 open PyVal
 
+/-- the three ways a sink method may be written (the ports' `-> None | Awaitable[None]`) -/
+inductive Spelling where
+  /-- `def m(self, …): <work>` -/
+  | plain
+  /-- `async def m(self, …): <work>` -/
+  | coroFn
+  /-- `def m(self, …): return <awaitable whose awaiting does the work>` -/
+  | awaitable
+deriving Inhabited, DecidableEq, Repr
+
 /-- what `getattr(<sink object>, "<name>", None)` finds, and what calling it does -/
 inductive Sink where
   /-- the attribute is missing (or `None`) -/
   | absent
-  /-- a function: `coro` = it is an `async def` (`inspect.iscoroutinefunction`), `raises` = its body raises an `Exception` -/
-  | fn (coro : Bool) (raises : Bool)
+  /-- a function in one of the three spellings; `raises` = its work raises an `Exception` -/
+  | fn (spelling : Spelling) (raises : Bool)
 deriving Inhabited, DecidableEq, Repr
 
 /-- `x is not None` -/
@@ -36,16 +51,15 @@ def Sink.isNotNone : Sink → Bool
   | .absent => false
   | .fn _ _ => true
 
-/-- `inspect.iscoroutinefunction(x)` (`False` for `None`) -/
+/-- `inspect.iscoroutinefunction(x)`: `True` for an `async def` only (`False` for `None` and for a `def` returning an awaitable) -/
 def Sink.isCoro : Sink → Bool
-  | .absent => false
-  | .fn c _ => c
+  | .fn .coroFn _ => true
+  | _ => false
 
-/-- one sink call that was made (the sink's body ran): which sink (named by the attribute path it was looked up under, not by the
-    local variable that held it), whether it ran as a coroutine, the positional arguments -/
+/-- one sink call whose WORK RAN: which sink (named by the attribute path it was looked up under, not by the local variable that
+    held it), the positional arguments -/
 structure Call where
   callee : String
-  coro : Bool
   args : List PyVal
 deriving Inhabited
 
@@ -78,14 +92,22 @@ def tryExcept (t h : Trace) : Trace :=
   | .raised => ⟨t.calls ++ h.calls, h.ending⟩
   | _ => t
 
+/-- the statement `await maybe_await(x(args…))` for a sink value `x` looked up as `label`: the call is made, an awaitable result is
+    awaited, anything else handed on — the work runs once in every spelling; a raise at call time or at await time propagates from
+    this statement -/
+def callMaybe (label : String) (s : Sink) (args : List PyVal) : Trace :=
+  match s with
+  | .absent => ⟨[], .raised⟩
+  | .fn _ r => ⟨[⟨label, args⟩], if r then .raised else .next⟩
+
 /-- the statement `x(args…)` (`awaited = false`) / `await x(args…)` (`awaited = true`) for a sink value `x` looked up as `label` -/
 def call (label : String) (s : Sink) (awaited : Bool) (args : List PyVal) : Trace :=
   match s, awaited with
   | .absent, _ => ⟨[], .raised⟩
-  | .fn false r, false => ⟨[⟨label, false, args⟩], if r then .raised else .next⟩
-  | .fn true r, true => ⟨[⟨label, true, args⟩], if r then .raised else .next⟩
-  | .fn false _, true => ⟨[⟨label, false, args⟩], .raised⟩
-  | .fn true _, false => ⟨[], .next⟩
+  | .fn .plain r, false => ⟨[⟨label, args⟩], if r then .raised else .next⟩
+  | .fn .plain _, true => ⟨[⟨label, args⟩], .raised⟩
+  | .fn _ r, true => ⟨[⟨label, args⟩], if r then .raised else .next⟩
+  | .fn _ _, false => ⟨[], .next⟩
 
 theorem seq_next_left (k : Trace) : seq next k = k := by
   cases k; rfl
